@@ -1,4 +1,5 @@
 import OdcGeo.Model.C20
+import OdcGeo.Model.C20Glue
 namespace OdcGeo.C20.Drv
 open OdcGeo OdcGeo.IO OdcGeo.C20
 
@@ -25,8 +26,59 @@ def fmtTN (r : Rat × Int) : String := s!"{fmtRat r.1} {r.2}"
 
 def fmtBin (b : Bin1D) : String := s!"{fmtRat b.sz} {fmtRat b.origin} {b.direction}"
 
+/-- `s:<q>` scalar, `a:[..]` 1-d array -/
+def parseArg? (s : String) : Option Poly2d.Arg :=
+  match s.splitOn ":" with
+  | ["s", q] => (parseRat? q).map .scalar
+  | ["a", l] => (parseList? parseRat? l).map .arr
+  | _ => none
+
+/-- a row `a;b;…` -/
+def parseRow? (s : String) : Option (List Rat) := (s.splitOn ";").mapM parseRat?
+
+def fmtCallErr : Poly2d.CallErr → String
+  | .valueError => "ERR:ValueError"
+  | .typeError => "ERR:TypeError"
+
+def fmtRWS (r : RWS) : String := s!"{fmtAff r.R} {fmtAff r.W} {fmtAff r.S}"
+
 def run (args : List String) : Option String :=
   match args with
+  | ["polymk", shape, cc, A, x, y] => do
+    let shape ← parseList? parseNat? shape; let cc ← parseList? parsePt? cc; let A ← parseAff? A
+    let x ← parseRat? x; let y ← parseRat? y
+    pure (fmtRes (fun P => fmtPt (Poly2d.eval P (x, y))) (Poly2d.mk? shape cc A))
+  | ["polycall2", k, cc, A, x, y] => do
+    let k ← parseNat? k; let cc ← parseList? parsePt? cc; let A ← parseAff? A
+    let x ← parseArg? x; let y ← parseArg? y
+    let P : Poly2d := ⟨Poly2d.reshape k cc, A⟩
+    pure (match P.call2 x y with
+      | .ok r => s!"{fmtList fmtRat r.1} {fmtList fmtRat r.2}"
+      | .error e => fmtCallErr e)
+  | ["polycalln", k, cc, A, A2, pts] => do
+    let k ← parseNat? k; let cc ← parseList? parsePt? cc; let A ← parseAff? A
+    let A2 ← parseOpt? parseAff? A2; let pts ← parseList? parsePt? pts
+    let P : Poly2d := ⟨Poly2d.reshape k cc, A⟩
+    let P := match A2 with
+      | some B => P.withInputTransform B
+      | none => P
+    pure (fmtList fmtPt (P.callN pts))
+  | ["bineq", sz, o, d, sz2, o2, d2] => do
+    let sz ← parseRat? sz; let o ← parseRat? o; let d ← parseInt? d
+    let sz2 ← parseRat? sz2; let o2 ← parseRat? o2; let d2 ← parseInt? d2
+    pure (fmtBool (Bin1D.beq ⟨sz, o, d⟩ ⟨sz2, o2, d2⟩))
+  | ["applyaff", A, xs, ys] => do
+    let A ← parseAff? A; let xs ← parseList? parseRat? xs; let ys ← parseList? parseRat? ys
+    pure (fmtRes (fun r => s!"{fmtList fmtRat r.1} {fmtList fmtRat r.2}") (applyAffine A xs ys))
+  | ["unstack", rows] => do
+    let rows ← parseList? parseRow? rows
+    pure (fmtRes (fmtList fmtPt) (unstackXy rows))
+  | ["stack", pts] => do
+    let pts ← parseList? parsePt? pts
+    pure (fmtList (fun r => ";".intercalate (r.map fmtRat)) (stackXy pts))
+  | ["rwsnd", rows, n, p] => do
+    let rows ← parseList? parseRow? rows; let n ← parseRat? n; let p ← parseRat? p
+    pure (fmtRes fmtRWS (decomposeRwsNd rows n p))
   | ["split", x] => do
     let x ← parseXF? x
     let r := splitFloatX x
@@ -143,6 +195,10 @@ def run (args : List String) : Option String :=
   | ["design", n, x, y] => do
     let n ← parseNat? n; let x ← parseRat? x; let y ← parseRat? y
     pure (fmtRes (fun k => fmtList fmtRat (Poly2d.designRow k (x, y))) (Poly2d.fitKind n))
+  | ["designs", n, x, y] => do
+    -- the design row as a multiset (sorted): the order of the columns handed to LAPACK is an internal matter
+    let n ← parseNat? n; let x ← parseRat? x; let y ← parseRat? y
+    pure (fmtRes (fun k => fmtList fmtRat ((Poly2d.designRow k (x, y)).mergeSort (fun a b => decide (a ≤ b)))) (Poly2d.fitKind n))
   | ["denorm", cc, Ab] => do
     let cc ← parseList? parsePt? cc; let Ab ← parseAff? Ab
     pure (fmtList fmtPt (Poly2d.denorm cc Ab))
